@@ -666,8 +666,8 @@ def run(tier: str, seed: int, replay: str | None = None) -> int:
             tv = T.code_variant()
             tv = None if tv is None else tv + T.block_variant() + T.generic_variant() + T.sub_variant()
             if tv is not None and tv != variant and len(agreeing) == 1:
-                rep.tie_broken(f"translator reads variant {tv} from the source of FortranCodeUnit.correlate, "
-                               f"differential execution decides {variant}")
+                rep.tie_broken(f"the translator's witness projects show variant {tv} (translate/c07.py: probe_host / "
+                               f"probe_blocks / probe_generic / probe_sub), differential execution decides {variant}")
         except Exception as e:  # translator failure is already reported by lean_prove
             pass
     # A failing slot belongs to a known defect class only if (1) the decidable class predicate on
